@@ -24,7 +24,8 @@ import (
 // attribute edge values
 var ints = []int{0, -1, 999999999, -999999999, 9999999999, 42}
 var strs = []string{"", "a", strings.Repeat("x", 50), "héllo wörld ✓", "inner  spaces here", "Z", " lead", "trail ",
-	"caf\xe9", "\xff\xfe\x80", "ab\xe2\x82"} // the last three are not valid UTF-8 (Latin-1, raw high bytes, a truncated sequence)
+	"caf\xe9", "\xff\xfe\x80", "ab\xe2\x82", // these three are not valid UTF-8 (Latin-1, raw high bytes, a truncated sequence)
+	"tab\t", "\tlead", "line\n", "cr\r", "nb\u00a0", "\u00a0nb", "em\u2003"} // white space other than the blank at either end
 var floats = []float64{0, -1.5, 1.0 / 3.0, 1e10, 123456789.1234567891, -0.0000000001}
 
 type attrs struct {
@@ -79,6 +80,44 @@ type recBounds struct {
 	I int    `shp:"ival"`
 	S string `shp:"SVal"`
 	F float64
+}
+
+// the geometry as the last field of the record, behind the attributes
+type recPointGL struct {
+	I int    `shp:"ival"`
+	S string `shp:"SVal"`
+	F float64
+	geom.Point
+}
+type recMultiPointGL struct {
+	I int    `shp:"ival"`
+	S string `shp:"SVal"`
+	F float64
+	geom.MultiPoint
+}
+type recLineGL struct {
+	I int    `shp:"ival"`
+	S string `shp:"SVal"`
+	F float64
+	geom.LineString
+}
+type recMultiLineGL struct {
+	I int    `shp:"ival"`
+	S string `shp:"SVal"`
+	F float64
+	geom.MultiLineString
+}
+type recPolygonGL struct {
+	I int    `shp:"ival"`
+	S string `shp:"SVal"`
+	F float64
+	geom.Polygon
+}
+type recBoundsGL struct {
+	I int    `shp:"ival"`
+	S string `shp:"SVal"`
+	F float64
+	*geom.Bounds
 }
 
 // attribute names of 11 bytes, the most a DBF field name holds
@@ -229,7 +268,7 @@ func roundTrip(kind string, recs []rec, api string) {
 		}
 	}()
 	// ---- write
-	if api == "struct" || api == "struct-string-last" || api == "struct-long-names" || api == "struct-cross-names" {
+	if api == "struct" || api == "struct-string-last" || api == "struct-long-names" || api == "struct-cross-names" || api == "struct-geometry-last" {
 		var arch interface{}
 		switch kind {
 		case "Point":
@@ -251,6 +290,9 @@ func roundTrip(kind string, recs []rec, api string) {
 			arch = recPolygon{}
 		case "Bounds":
 			arch = recBounds{}
+		}
+		if api == "struct-geometry-last" {
+			arch = map[string]interface{}{"Point": recPointGL{}, "MultiPoint": recMultiPointGL{}, "LineString": recLineGL{}, "MultiLineString": recMultiLineGL{}, "Polygon": recPolygonGL{}, "Bounds": recBoundsGL{}}[kind]
 		}
 		var e *shp.Encoder
 		if p := try(func() { e, err = shp.NewEncoder(fn, arch) }); p != "" || err != nil {
@@ -279,6 +321,22 @@ func roundTrip(kind string, recs []rec, api string) {
 				d = recPolygon{t, r.a.I, r.a.S, r.a.F}
 			case *geom.Bounds:
 				d = recBounds{t, r.a.I, r.a.S, r.a.F}
+			}
+			if api == "struct-geometry-last" {
+				switch t := r.g.(type) {
+				case geom.Point:
+					d = recPointGL{r.a.I, r.a.S, r.a.F, t}
+				case geom.MultiPoint:
+					d = recMultiPointGL{r.a.I, r.a.S, r.a.F, t}
+				case geom.LineString:
+					d = recLineGL{r.a.I, r.a.S, r.a.F, t}
+				case geom.MultiLineString:
+					d = recMultiLineGL{r.a.I, r.a.S, r.a.F, t}
+				case geom.Polygon:
+					d = recPolygonGL{r.a.I, r.a.S, r.a.F, t}
+				case *geom.Bounds:
+					d = recBoundsGL{r.a.I, r.a.S, r.a.F, t}
+				}
 			}
 			var eerr error
 			if p := try(func() { eerr = e.Encode(d) }); p != "" || eerr != nil {
@@ -351,7 +409,7 @@ func roundTrip(kind string, recs []rec, api string) {
 				return
 			}
 			g, gi, gs, gf = r.G, r.I, r.S, r.F
-		} else if api == "struct" || api == "struct-string-last" {
+		} else if api == "struct" || api == "struct-string-last" || api == "struct-geometry-last" {
 			var r decRec
 			if p := try(func() { more = d.DecodeRow(&r) }); p != "" {
 				rep.Violation(fmt.Sprintf("struct|%s|DecodeRow-panic", kind), detail(n, p))
@@ -433,7 +491,7 @@ func main() {
 		return
 	}
 	rep = report.New("C16", tier, "model_checking")
-	rep.Rule = "E1: for each of Point, MultiPoint, LineString, MultiLineString, Polygon, *Bounds: every shape with 1..3 parts/rings x 1..3 vertices (rings closed, closed with the closing vertex twice, and unclosed, both windings by rotation of the pattern list, every fourth rotation with a repeated consecutive vertex in every part) with coordinates from 19 finite float64 patterns, as single records, ordered pairs and triples of a reduced shape list, the empty file, files of 100 records and records with parts of up to 300 vertices / 40 parts; attributes int {0,-1,+-999999999,9999999999,42}, string {empty, 1 byte, 50 bytes, UTF-8, inner spaces, leading/trailing space, three byte strings that are not valid UTF-8}, float {0,-1.5,1/3,1e10,123456789.1234567891,-1e-10}; multi-line strings also with empty parts after the first; the struct API (tags/names in different letter case between writer and reader; for points also a record type whose last field is the string, and one in which the Go name of a field is the tag of another), the field API, both with attribute names of 11 bytes too, and the field API with geometry-only reads (no field names) on every other record. the struct and field APIs again with the written geometries cut from flat vertex buffers (not written to). Oracle: same number and order of records, every returned geometry and attribute map still intact after the last row, bit-identical coordinates part by part (unclosed rings closed, boxes as 5-vertex rectangles), ints equal, strings equal, floats within 1e-10. Non-trivial = files with >= 2 records or >= 2 parts."
+	rep.Rule = "E1: for each of Point, MultiPoint, LineString, MultiLineString, Polygon, *Bounds: every shape with 1..3 parts/rings x 1..3 vertices (rings closed, closed with the closing vertex twice, and unclosed, both windings by rotation of the pattern list, every fourth rotation with a repeated consecutive vertex in every part) with coordinates from 19 finite float64 patterns, as single records, ordered pairs and triples of a reduced shape list, the empty file, files of 100 records and records with parts of up to 300 vertices / 40 parts; attributes int {0,-1,+-999999999,9999999999,42}, string {empty, 1 byte, 50 bytes, UTF-8, inner spaces, leading/trailing space, three byte strings that are not valid UTF-8, a tab / line feed / carriage return / no-break space / em space at either end}, float {0,-1.5,1/3,1e10,123456789.1234567891,-1e-10}; multi-line strings also with empty parts after the first; the struct API (tags/names in different letter case between writer and reader; for every type also a record type whose last field is the geometry, for points also a record type whose last field is the string, and one in which the Go name of a field is the tag of another), the field API, both with attribute names of 11 bytes too, and the field API with geometry-only reads (no field names) on every other record. the struct and field APIs again with the written geometries cut from flat vertex buffers (not written to). Oracle: same number and order of records, every returned geometry and attribute map still intact after the last row, bit-identical coordinates part by part (unclosed rings closed, boxes as 5-vertex rectangles), ints equal, strings equal, floats within 1e-10. Non-trivial = files with >= 2 records or >= 2 parts."
 	tmpRoot = "/dev/shm"
 	if st, err := os.Stat(tmpRoot); err != nil || !st.IsDir() {
 		tmpRoot = os.TempDir()
@@ -530,7 +588,7 @@ func main() {
 			}
 			return g
 		}
-		apis := []string{"struct", "fields", "fields-mixed", "struct-flat", "fields-flat", "fields-long-names"}
+		apis := []string{"struct", "fields", "fields-mixed", "struct-flat", "fields-flat", "fields-long-names", "struct-geometry-last"}
 		if kind == "Point" {
 			apis = append(apis, "struct-long-names", "struct-cross-names")
 		}
